@@ -7,6 +7,7 @@ import sympy
 
 from ..core import Exhausted
 from ..gen import circuits as GC
+from ..gen import nonunitary as NU
 from ..ref import linalg as L
 
 ID = "C07"
@@ -16,7 +17,12 @@ RULE = (
     "(quick) or 1-5 (thorough) over every built-in gate at random and special parameters, custom numeric "
     "gates and (dagger/controlled only) symbolic gates, total width <= 4/5; plus the exhaustively enumerated "
     "class of all ordered modifier pairs over 9 modifiers x a fixed list of base gates; plus replace_params "
-    "commutation cases; a case is non-trivial when its chain has >= 2 modifiers of two different kinds; "
+    "commutation cases; plus gates whose matrices are NOT unitary (defective Jordan blocks, triangular, "
+    "off-unit-circle diagonal, scaled unitaries incl. |c| = 1 +- 1 %, hermitian positive definite / indefinite, "
+    "dense with singular values in [0.5, 2], singular), made as numeric custom gates, parametrised custom gates at "
+    "int / float / complex parameters or bare MatrixFactoryGates (flagged hermitian when they are), under the same "
+    "chains, 60 % of them forced to hold both a dagger and a (mostly negative) integer power (adjoint = inverse only for "
+    "unitaries); a case is non-trivial when its chain has >= 2 modifiers of two different kinds; "
     "distinct = distinct canonical case strings. exp of T, of >= 3-qubit gates and of exp are excluded "
     "(non-terminating sympy calls)"
 )
@@ -41,7 +47,8 @@ TOL = 1e-8
 
 
 def classes(tier):
-    return ["builtin", "custom", "custom_structured", "siblings", "symbolic", "replace", "k1_targets", "k7_targets", "pairs_exh"]
+    return ["builtin", "custom", "custom_structured", "nonunitary", "siblings", "symbolic", "replace", "k1_targets",
+            "k7_targets", "pairs_exh"]
 
 
 # ----------------------------------------------------------------------------- reference
@@ -381,6 +388,45 @@ def _rand_chain(rng, base_nq, max_width, max_len, allow, *, cheap=False, jordan_
     return chain
 
 
+def _nu_chain(rng, base_nq, max_width, max_len, info):
+    """chain over a non-unitary base gate.  Identities that hold for unitary matrices only relate the adjoint and
+    the inverse (U^dagger = U^-1, (U^dagger)^-n = U^n, ...): 60 % of the chains are made to contain both a dagger
+    and an integer power (negative three times out of four; rarely so when the matrix is singular), in either
+    order, anywhere in the chain"""
+    all_mods = ["dagger", "controlled", "power_int", "power_frac", "exp"]
+    cheap, dense = info["cheap"], info["dense"]
+    mjw = 2 if cheap else 1
+    raw = _rand_chain(rng, base_nq, max_width, max_len, all_mods, cheap=cheap, dense=dense, max_jordan_width=mjw)
+    if rng.random() < 0.6:
+        e = rng.choice([1, 2, 3])
+        if rng.random() < (0.75 if info["invertible"] else 0.2):
+            e = -e
+        raw = raw[: max(0, max_len - 2)]
+        # an inverse after a Jordan-form operation is affordable on the cheap flavours only
+        first_j = next((i for i, m in enumerate(raw) if m[0] in ("power_frac", "exp")), len(raw))
+        hi = len(raw) if cheap else first_j
+        for m in rng.sample([("dagger",), ("power_int", e)], 2):
+            raw.insert(rng.randint(0, hi), m)
+            hi += 1
+    # validate against the cost model; modifiers that are not affordable at their place are dropped
+    chain, width = [], base_nq
+    for m in raw:
+        if m[0] == "controlled" and width + m[1] > max_width:
+            continue
+        if m[0] == "power_frac" and any(x[0] == "power_frac" for x in chain):
+            continue  # nested roots are K7 territory (observed by k7_targets)
+        if m[0] == "power_int" and m[1] < 0 and width >= 2 and any(x[0] == "exp" for x in chain):
+            continue  # inverting a >= 4x4 matrix of unevaluated exp(...) entries does not return in time
+        if m[0] == "power_int" and abs(m[1]) > 2 and not cheap and any(x[0] in ("power_frac", "exp") for x in chain):
+            continue  # products of matrices of unevaluated radicals / exponentials grow too fast
+        if not _may_append(chain, m, base_nq, cheap, True, mjw, dense):
+            continue
+        chain.append(m)
+        if m[0] == "controlled":
+            width += m[1]
+    return chain or [("dagger",)]
+
+
 def _chain_str(chain):
     return ".".join(m[0] + (f"[{m[1]:.6g}]" if len(m) > 1 else "") for m in chain)
 
@@ -502,6 +548,24 @@ def run_case(ctx):
         ctx.describe(f"custom-{flavor}{nq}q#{ctx.index}.{_chain_str(chain)}", _nontrivial(chain))
         ctx.mon.note("custom-flavor:" + flavor)
         _run_chain(ctx, g, "custom", chain)
+        return
+    if cls == "nonunitary":
+        # gates need not be unitary (any 2^n square matrix is accepted): every flavour of non-unitary matrix, made
+        # through every route, under the modifier chains; shortcuts that are right for unitary / normal /
+        # diagonalisable / invertible matrices only show here
+        nq = rng.choice([1, 1, 1, 2])
+        flavor = NU.FLAVORS[ctx.index % len(NU.FLAVORS)] if rng.random() < 0.8 else None
+        g, d, info = NU.nonunitary_gate(rng, nprng, nq, f"NU{ctx.index}", flavor=flavor)
+        chain = _nu_chain(rng, nq, max_width, max_len, info)
+        M0 = GC.to_np(g.matrix)
+        nonunitary = not L.is_unitary(M0, 1e-6)
+        ctx.describe(f"{d}.{_chain_str(chain)}", nonunitary and _nontrivial(chain))
+        ctx.mon.note("nonunitary-flavor:" + info["flavor"])
+        ctx.mon.note("nonunitary-route:" + info["route"])
+        ctx.mon.note("nonunitary-input" if nonunitary else "nonunitary-generator-gave-unitary")
+        if any(m[0] == "dagger" for m in chain) and any(m[0] == "power_int" and m[1] < 0 for m in chain):
+            ctx.mon.note("nonunitary-dagger-and-inverse-in-chain")
+        _run_chain(ctx, g, d, chain)
         return
     if cls == "siblings":
         # two DIFFERENT gates that share name-level identity once wrapped (every ControlledGate is called
